@@ -68,6 +68,7 @@ def features(case):
     if c["val"]: f.append("validation_loader")
     if c["ev"]: f.append("evaluator_" + c["ev"])
     if c.get("ev_cb"): f.append("evaluator_metric_callbacks")
+    if c.get("hist"): f.append("history_" + c["hist"])
     if c.get("peek"): f.append("loader_partially_consumed_" + ("before_fit" if c["peek"] == "before" else "by_epoch_callback"))
     if c["cb_train"]: f.append("on_train_epoch_callback" + ("_touching_one_submodule" if c["cb_train"] == "child" else ""))
     if c["cb_val"]: f.append("on_validation_epoch_callback" + ("_touching_one_submodule" if c["cb_val"] == "child" else ""))
@@ -115,8 +116,11 @@ class World:
                 return super().step()
 
             def zero_grad(s):
-                log.append(("zero_grad",))
-                return super().zero_grad()
+                r = super().zero_grad()
+                # what "clearing the gradients" means for the update that follows: no parameter that may be updated still carries a gradient
+                left = [i for i, p_ in enumerate(s.parameters) if p_.requires_grad and p_._grad is not None and np.any(np.asarray(p_._grad) != 0)]
+                log.append(("zero_grad", left))
+                return r
 
         class LLoss:
             def __init__(s, inner):
@@ -165,6 +169,11 @@ class World:
             return ld
 
         self.model = Net()
+        hist = case.get("hist")
+        if hist == "bn_untracked_later" and isinstance(self.model.bn, nn.BatchNorm1d):
+            self.model.bn.track_running_stats = False      # the layer keeps its buffers; in eval mode it must go on normalising with them and must not touch them
+        if hist == "unfreeze_in_callback":
+            self.model.l.freeze()                           # frozen while the optimizer is built; the epoch callback unfreezes it (progressive unfreezing)
         self.trainer = Trainer(self.model, synapgrad)
         self.loss = LLoss(nn.CrossEntropyLoss() if mode == Evaluator.MULTI_CLASS else nn.MSELoss())
         self.trainer.compile(self.loss, LSGD(self.model.parameters(), lr=0.05, momentum=0.5), (LEvaluator(mode=mode, epoch_callback=lambda yt, yp: [("err", np.float64(np.mean(yt != yp))), ("validity", np.float64(np.mean(yt != yp)))], step_callback=lambda yt, yp: [("step_err", np.float64(np.mean(yt != yp)))])
@@ -210,6 +219,8 @@ class World:
             self.log.append(("cb", which))
             if self.case.get("peek") == "callback":
                 self.peek(loader)
+            if self.case.get("hist") == "unfreeze_in_callback" and which.startswith("train"):
+                self.model.l.unfreeze()
             if which == "train":
                 nn.Module.eval(model)
             elif which == "val":
@@ -263,6 +274,9 @@ def run_fit(case, seed=0):
     ck(len(steps) == c["epochs"] * T, "Trainer.fit.steps_per_epoch", "%d optimizer.step() calls for epochs=%d x len(train_loader)=%d" % (len(steps), c["epochs"], T))
     prev = -1
     for s in steps:
+        zg = [e for e in log[prev + 1:s] if e[0] == "zero_grad"]
+        ck(all(not e[1] for e in zg if len(e) > 1), "Trainer.fit.gradients_cleared_before_each_update",
+           lambda: "after the optimizer's zero_grad() the parameters %s (positions in the optimizer's list) that require grad still hold a non-zero gradient" % [e[1] for e in zg if len(e) > 1 and e[1]])
         win = [e[0] for e in log[prev + 1:s]]
         ok = win.count("backward") == 1 and "zero_grad" in win and win.index("zero_grad") < win.index("backward") and "zero_grad" not in win[win.index("backward"):]
         ck(ok, "Trainer.fit.zero_grad_then_backward_before_step", lambda: "between two updates the log reads %s" % win)
